@@ -4,6 +4,7 @@ package interp
 
 import (
 	"fmt"
+	"os"
 	"go/token"
 	"go/types"
 	"sort"
@@ -374,9 +375,10 @@ type Exec struct {
 	pending [][]Decision
 	steps   int
 
-	MaxSteps     int
-	MaxDecisions int
+	MaxSteps      int
+	MaxDecisions  int
 	MaxConcretize int
+	NoMerge       bool
 
 	concrete map[string]uint64 // concrete-mode bindings for intrinsics (replay); nil in symbolic mode
 	spawned  []spawn
@@ -439,6 +441,7 @@ func (x *Exec) decide(cond *smt.Term) bool {
 	if x.concrete != nil {
 		x.abort(AbortEngine, "symbolic branch in concrete mode: %s", cond)
 	}
+	x.debugCheckPC("decide-entry " + cond.String())
 	rT, _ := x.check(cond, nil)
 	if rT == smt.Unsat {
 		x.trail = append(x.trail, Decision{0, DBranch})
@@ -485,8 +488,25 @@ func (x *Exec) concretize(v value) int64 {
 	return int64(u)
 }
 
+func (x *Exec) debugCheckPC(where string) {
+	if !DebugPC || x.S == nil {
+		return
+	}
+	if r, _ := x.S.Check(x.pc, nil, nil, false); r == smt.Unsat {
+		os.WriteFile("/tmp/verif_unsat_pc.smt2", []byte("(set-option :produce-unsat-cores true)\n"+smt.Script(x.pc, nil)), 0o644)
+		msg := where + ": pc unsat; last conjuncts:"
+		for i := len(x.pc) - 1; i >= 0 && i >= len(x.pc)-4; i-- {
+			msg += "\n   " + x.pc[i].String()
+		}
+		x.abort(AbortEngine, "%s", msg)
+	}
+}
+
+var DebugPC = false
+
 func (x *Exec) concretizeTerm(t *smt.Term) uint64 {
 	c := x.C
+	x.debugCheckPC("concretize-entry")
 	if t.IsConst() {
 		return t.Val
 	}
@@ -513,7 +533,10 @@ func (x *Exec) concretizeTerm(t *smt.Term) uint64 {
 		if r == smt.Unknown {
 			x.abort(AbortUnknown, "solver unknown while enumerating values of %s", t)
 		}
-		v := m[modelKey(t)]
+		v, have := m[modelKey(t)]
+		if !have {
+			x.abort(AbortEngine, "solver model lacks a value for %s", t)
+		}
 		vals = append(vals, v)
 		if len(vals) > x.MaxConcretize {
 			x.abort(AbortUnwind, "more than %d feasible values for %s", x.MaxConcretize, t)
@@ -649,7 +672,7 @@ func (x *Exec) assert(v value, id string, pos string) {
 // Program is a loaded and built SSA program plus configuration shared by all paths.
 type Program struct {
 	Prog      *ssa.Program
-	InitPkgs  map[string]bool   // packages whose init is executed
+	InitPkgs  map[string]bool // packages whose init is executed
 	HarnessPk []*ssa.Package
 	Sizes     types.Sizes
 }
@@ -667,7 +690,7 @@ type RunOpts struct {
 	MaxSteps      int
 	MaxDecisions  int
 	MaxConcretize int
-	Concrete      map[string]uint64 // non-nil => concrete mode
+	Concrete      map[string]uint64        // non-nil => concrete mode
 	Redirect      map[string]*ssa.Function // callee full name -> harness model (go-model stubs)
 }
 
